@@ -11,6 +11,7 @@ use std::fmt::Write as _;
 use std::rc::Rc;
 
 mod cli_driver;
+mod hidden_driver;
 #[cfg(all(feature = "help", feature = "autocomplete", feature = "history"))]
 mod derive_driver;
 
@@ -929,6 +930,7 @@ fn main() {
         "derive_help" => derive_driver::run(&mut r, iters),
         #[cfg(all(feature = "help", feature = "autocomplete", feature = "history"))]
         "derive_fail" => derive_driver::run_fail(&mut r, iters),
+        "derive_hidden" => hidden_driver::run(&mut r, iters),
         "cli" => cli_driver::run(&mut r, iters, ""),
         d if d.starts_with("cli:") => cli_driver::run(&mut r, iters, &d[4..]),
         _ => {
